@@ -8,7 +8,7 @@
    budget hypothesis is kept in the statements although the model does not need it: Go panics for n = 0).
    Hypothesis t_subb: total >= self + children totals at every node — what insert / merge / decode /
    scale produce (C09); t_exactb (equality) is what unscaled storage trees satisfy. *)
-From Pyro Require Import Model.Base Model.Tree Model.Cappedarr Model.Flame Proofs.TreeProofs Proofs.FlameProofs.
+From Pyro Require Import Model.Base Model.Tree Model.Cappedarr Model.Flame Proofs.TreeProofs Proofs.FlameProofs Proofs.CappedarrProofs.
 
 Theorem C10_numticks : forall n t, fb_numticks (flamebearer n t) = t_total t.
 Proof. reflexivity. Qed.
@@ -111,6 +111,34 @@ Theorem C10_visit_frames : forall th t, root_shown th t = true -> forall x lvl f
 Proof. exact fb_visit_frames. Qed.
 Print Assumptions C10_visit_frames.
 
+(* ---- the threshold ------------------------------------------------------------------------------ *)
+(* the capped array holds, in ascending order, the n largest values pushed so far (n = maxSize >= 1) *)
+Theorem C10_cappedarr_topn : forall n vs, (1 <= n)%nat ->
+  ca_vals (ca_pushes vs (ca_new n)) = keep_last n (isort vs) /\ ca_max (ca_pushes vs (ca_new n)) = n.
+Proof. exact ca_pushes_vals. Qed.
+Print Assumptions C10_cappedarr_topn.
+
+(* th = 0 when the pruned walk of minValue visited at most n nodes, otherwise the n-th largest of the
+   totals it visited ([mv_seq]: pre-order, children of a refused node skipped; [isort] ascending).
+   That the pruned walk may be replaced by "all totals of the tree" (trees with total >= self + children)
+   is not proved; it is checked on every correspondence case (CorrC10.theta_spec sorts all totals). *)
+Theorem C10_threshold_nth : forall n t, (1 <= n)%nat ->
+  let vs := mv_seq t (ca_new n) in
+  t_minval n t = if Nat.leb (length vs) n then 0 else nth (length vs - n) (isort vs) 0.
+Proof. exact t_minval_nth. Qed.
+Print Assumptions C10_threshold_nth.
+
+(* a tree that fits the budget has threshold 0 (fix of D1) ... *)
+Theorem C10_small_tree : forall n t, (t_size t <= n)%nat -> t_minval n t = 0.
+Proof. exact t_minval_small. Qed.
+Print Assumptions C10_small_tree.
+
+(* ... and with threshold 0 every frame of the tree has a bar and there is no `other` bar *)
+Theorem C10_all_shown : forall t lvl f,
+  fbars 0 lvl t f <-> exists d n, desc_at d t n /\ f = ((lvl + d)%nat, t_total n, t_self n, t_name n).
+Proof. exact fbars_zero_iff. Qed.
+Print Assumptions C10_all_shown.
+
 (* ---- non-vacuity: a tree with ties, a frame literally named `other`, zero-valued frames and the
    same name at two depths; with budget 3 two `other` bars are synthesised -------------------------- *)
 Definition ex_t : tnode :=
@@ -135,6 +163,12 @@ Proof.
   - apply (fbars_other (t_minval 3 ex_t) 1 (TNode [98] 2 5 [TNode other_name 0 0 []; TNode [255; 0] 3 3 []])).
     vm_compute. discriminate.
 Qed.
+
+Example C10_threshold_nonvacuous :
+  mv_seq ex_t (ca_new 3) = [12; 6; 1; 5; 0; 3; 0; 0] /\ isort (mv_seq ex_t (ca_new 3)) = [0; 0; 0; 1; 3; 5; 6; 12] /\
+  t_minval 3 ex_t = 5 /\ t_minval 9 ex_t = 0 /\ t_size ex_t = 8%nat /\
+  ca_vals (ca_pushes [12; 6; 1; 5; 0; 3] (ca_new 3)) = [5; 6; 12].
+Proof. vm_compute. repeat split. Qed.
 
 Example C10_conservation_scaled_nonvacuous :
   t_subb ex_scaled = true /\ t_exactb ex_scaled = false /\
